@@ -251,7 +251,7 @@ func (state *RuntimeState) webauthnAuthFinish(w http.ResponseWriter, r *http.Req
 		return
 	}
 	w.(*instrumentedwriter.LoggingWriter).SetUsername(authData.Username)
-	profile, ok, _, err := state.LoadUserProfile(authData.Username)
+	profile, ok, fromCache, err := state.LoadUserProfile(authData.Username)
 	if err != nil {
 		logger.Printf("loading profile error: %v", err)
 		http.Error(w, "error", http.StatusInternalServerError)
@@ -337,7 +337,9 @@ func (state *RuntimeState) webauthnAuthFinish(w http.ResponseWriter, r *http.Req
 
 		//loginCredential.Authenticator.UpdateCounter(parsedResponse.Response.AuthenticatorData.Counter)
 		u2fReg, ok := profile.U2fAuthData[credentialIndex]
-		if ok {
+		// A profile served from the offline cache may be stale: never write
+		// it back to the primary.
+		if ok && !fromCache {
 			u2fReg.Counter = parsedResponse.Response.AuthenticatorData.Counter
 			profile.U2fAuthData[credentialIndex] = u2fReg
 			go state.SaveUserProfile(authData.Username, profile)
